@@ -5,6 +5,7 @@ import (
 	"go/ast"
 	"go/token"
 	"go/types"
+	"sort"
 	"strings"
 )
 
@@ -457,7 +458,9 @@ func nilTypeUse(c *Ctx, info *types.Info, e ast.Expr) string {
 	return ""
 }
 
-func isNilTypeComparison(c *Ctx, info *types.Info, e ast.Expr) bool { return nilTypeUse(c, info, e) == "test" }
+func isNilTypeComparison(c *Ctx, info *types.Info, e ast.Expr) bool {
+	return nilTypeUse(c, info, e) == "test"
+}
 
 // paramGuardsNilType: every use of parameter #idx in fd's body (other than comparisons with NilType)
 // happens after the parameter was compared with NilType with an exit.
@@ -1673,7 +1676,9 @@ func runConformanceCollectionsRecurse(rr *RuleRun) {
 			return true
 		}
 		key := "cty.testConformance/append " + trunc(exprStr(call.Args[1]), 50)
-		g := cf.HoldsAt(call, func(cond ast.Expr, truth bool) bool { return truth && methodCond(info, cond, given, collectionPreds...) })
+		g := cf.HoldsAt(call, func(cond ast.Expr, truth bool) bool {
+			return truth && methodCond(info, cond, given, collectionPreds...)
+		})
 		w := cf.HoldsAt(call, func(cond ast.Expr, truth bool) bool { return truth && methodCond(info, cond, want, collectionPreds...) })
 		if g && w {
 			rr.Violation(key, call.Pos(), "an error is reported for a pair of collection types as a whole (both 'given' and 'want' are established to be collections here): conformance of collections is decided by their element types alone, disregarding optional-attribute annotations and resolving placeholders — a whole-type comparison rejects types that conform")
@@ -1735,5 +1740,479 @@ func runPlaceholderSearchRecurses(rr *RuleRun) {
 			}
 			rr.Violation(key, fd.Pos(), fmt.Sprintf("no recursive HasDynamicTypes call is made under the branch condition for %s types: a placeholder nested deeper than a direct member of such a type is not found, so 'has dynamic types' answers false for a type that contains one", rq.name))
 		}
+	}
+}
+
+// ---------------------------------------------------------------------------
+// C15.encoder-follows-constraint
+
+func init() {
+	register(&Rule{
+		ID: "C15.encoder-follows-constraint", Prop: "C15", Also: []string{"C16"}, Floor: 8, Controls: 0,
+		Doc: "in the type-directed encoders (json.marshal, msgpack.marshal) every recursive call encodes a member against a type derived from the constraint parameter (its element / attribute / tuple element type), not against the member's own type: only the constraint says where a dynamic placeholder sits, and only there the member is wrapped together with its type; map keys (always strings) and constant primitive types are exempt",
+		Run: runEncoderFollowsConstraint,
+	})
+}
+
+func runEncoderFollowsConstraint(rr *RuleRun) {
+	c := rr.Ctx
+	for _, pkg := range []string{"cty/json", "cty/msgpack"} {
+		info := c.Info(pkg)
+		fd := rr.MustDecl(pkg, "marshal")
+		if fd == nil {
+			continue
+		}
+		self, _ := info.Defs[fd.Name].(*types.Func)
+		var tparam types.Object
+		for i := 0; ; i++ {
+			id := paramIdent(fd, i)
+			if id == nil {
+				break
+			}
+			if isCtyType(info.TypeOf(id)) && tparam == nil {
+				tparam = info.Defs[id]
+			}
+		}
+		if tparam == nil || self == nil {
+			rr.Broken("stale anchor: " + pkg + ".marshal has no cty.Type parameter")
+			continue
+		}
+		dep := map[types.Object]bool{tparam: true}
+		mentions := func(e ast.Expr) bool {
+			found := false
+			ast.Inspect(e, func(n ast.Node) bool {
+				if id, ok := n.(*ast.Ident); ok && dep[info.Uses[id]] {
+					found = true
+				}
+				return !found
+			})
+			return found
+		}
+		keyVars := map[types.Object]bool{} // first result of it.Element(): a collection key
+		for pass := 0; pass < 4; pass++ {
+			ast.Inspect(fd.Body, func(n ast.Node) bool {
+				switch x := n.(type) {
+				case *ast.AssignStmt:
+					for i, l := range x.Lhs {
+						var r ast.Expr
+						if len(x.Rhs) == len(x.Lhs) {
+							r = x.Rhs[i]
+						} else if len(x.Rhs) == 1 {
+							r = x.Rhs[0]
+						}
+						if r == nil {
+							continue
+						}
+						if call, ok := ast.Unparen(r).(*ast.CallExpr); ok && i == 0 && len(x.Lhs) == 2 && isCall(info, call, "cty.ElementIterator.Element") {
+							if o := objOf(info, l); o != nil {
+								keyVars[o] = true
+							}
+							continue
+						}
+						if mentions(r) {
+							if o := objOf(info, l); o != nil && isCtyType(o.Type()) {
+								dep[o] = true
+							}
+							if o := objOf(info, l); o != nil {
+								if _, isMap := o.Type().Underlying().(*types.Map); isMap {
+									dep[o] = true
+								}
+								if _, isSl := o.Type().Underlying().(*types.Slice); isSl {
+									dep[o] = true
+								}
+							}
+						}
+					}
+				case *ast.RangeStmt:
+					if mentions(x.X) {
+						for _, e := range []ast.Expr{x.Key, x.Value} {
+							if e != nil {
+								if o := objOf(info, e); o != nil {
+									dep[o] = true
+								}
+							}
+						}
+					}
+				}
+				return true
+			})
+		}
+		ast.Inspect(fd.Body, func(n ast.Node) bool {
+			call, ok := n.(*ast.CallExpr)
+			if !ok || callee(info, call) != self || len(call.Args) < 2 {
+				return true
+			}
+			valArg, tyArg := call.Args[0], call.Args[1]
+			key := fmt.Sprintf("%s.marshal/marshal(%s, %s)", pkg, trunc(exprStr(valArg), 24), trunc(exprStr(tyArg), 24))
+			switch {
+			case mentions(tyArg):
+				rr.OK(key, call.Pos(), "the member is encoded against a type derived from the constraint")
+			case isPkgVar(info, tyArg, "cty", "String", "Number", "Bool"):
+				rr.OKTrivial(key, call.Pos(), "constant primitive type")
+			case keyVars[objOf(info, valArg)]:
+				rr.OKTrivial(key, call.Pos(), "a collection key (always a string) encoded against its own type")
+			default:
+				rr.Violation(key, call.Pos(), fmt.Sprintf("the member %s is encoded against %s, which does not derive from the constraint %s: where the constraint has a dynamic placeholder at or below this member the type wrapper is not written, so the decoder (which follows the constraint) cannot read the value back", exprStr(valArg), exprStr(tyArg), tparam.Name()))
+			}
+			return true
+		})
+	}
+}
+
+// ---------------------------------------------------------------------------
+// C12.first-operand-like-the-rest
+
+func init() {
+	register(&Rule{
+		ID: "C12.first-operand-like-the-rest", Prop: "C12", Also: []string{"C11"}, Floor: 1, Controls: 0,
+		Doc: "where a callback treats args[0] and the elements of args[1:] alike (both are handed to the same accessor, e.g. AsValueSet) but handles the first one before a loop over the rest, every state guard the loop applies to an operand before using it (IsWhollyKnown / IsKnown / IsNull … with a value-producing exit) is applied to the first operand too: a guard kept only in the loop leaves the first operand unchecked",
+		Run: runFirstOperandLikeTheRest,
+	})
+}
+
+func runFirstOperandLikeTheRest(rr *RuleRun) {
+	c := rr.Ctx
+	statePreds := map[string]bool{"IsWhollyKnown": true, "IsKnown": true, "IsNull": true, "IsMarked": true, "ContainsMarked": true}
+	eachFuncBody(c, []string{"cty/function/stdlib"}, func(pkg string, fd *ast.FuncDecl, body *ast.BlockStmt) {
+		info := c.Info(pkg)
+		// the tail loop
+		var loop *ast.RangeStmt
+		var argsObj types.Object
+		for _, st := range body.List {
+			rs, ok := st.(*ast.RangeStmt)
+			if !ok {
+				continue
+			}
+			sl, ok := ast.Unparen(rs.X).(*ast.SliceExpr)
+			if !ok || sl.High != nil {
+				continue
+			}
+			if v, ok := constInt(info, sl.Low); !ok || v != 1 {
+				continue
+			}
+			if t, ok := info.TypeOf(sl.X).Underlying().(*types.Slice); !ok || !isCtyValue(t.Elem()) {
+				continue
+			}
+			loop, argsObj = rs, objOf(info, sl.X)
+		}
+		if loop == nil || argsObj == nil || loop.Value == nil {
+			return
+		}
+		// families
+		family := func(seed func(e ast.Expr) bool, root ast.Node, before token.Pos) map[types.Object]bool {
+			fam := map[types.Object]bool{}
+			ment := func(e ast.Expr) bool {
+				found := false
+				ast.Inspect(e, func(n ast.Node) bool {
+					if ex, ok := n.(ast.Expr); ok && seed(ex) {
+						found = true
+					}
+					if id, ok := n.(*ast.Ident); ok && fam[info.Uses[id]] {
+						found = true
+					}
+					return !found
+				})
+				return found
+			}
+			for pass := 0; pass < 3; pass++ {
+				inspectNoLit(root, func(n ast.Node) bool {
+					as, ok := n.(*ast.AssignStmt)
+					if !ok || (before.IsValid() && as.Pos() >= before) {
+						return true
+					}
+					for i, l := range as.Lhs {
+						var r ast.Expr
+						if len(as.Rhs) == len(as.Lhs) {
+							r = as.Rhs[i]
+						} else if len(as.Rhs) == 1 && i == 0 {
+							r = as.Rhs[0]
+						}
+						if r != nil && ment(r) {
+							if o := objOf(info, l); o != nil && isCtyValue(o.Type()) {
+								fam[o] = true
+							}
+						}
+					}
+					return true
+				})
+			}
+			return fam
+		}
+		isArgs0 := func(e ast.Expr) bool {
+			ix, ok := ast.Unparen(e).(*ast.IndexExpr)
+			if !ok || objOf(info, ix.X) != argsObj {
+				return false
+			}
+			v, ok := constInt(info, ix.Index)
+			return ok && v == 0
+		}
+		head := family(isArgs0, body, loop.Pos())
+		loopVar := objOf(info, loop.Value)
+		tail := family(func(e ast.Expr) bool { return objOf(info, e) == loopVar && loopVar != nil }, loop.Body, token.NoPos)
+		tail[loopVar] = true
+		inFam := func(fam map[types.Object]bool, e ast.Expr, isHead bool) bool {
+			if o := objOf(info, e); o != nil && fam[o] {
+				return true
+			}
+			return isHead && isArgs0(e)
+		}
+		// treated alike: some accessor is applied to a head variable and to a tail variable
+		applied := func(fam map[types.Object]bool, root ast.Node, isHead bool) map[string]bool {
+			out := map[string]bool{}
+			inspectNoLit(root, func(n ast.Node) bool {
+				call, ok := n.(*ast.CallExpr)
+				if !ok {
+					return true
+				}
+				if se, ok := call.Fun.(*ast.SelectorExpr); ok && inFam(fam, se.X, isHead) && !statePreds[se.Sel.Name] {
+					out[se.Sel.Name] = true
+				}
+				return true
+			})
+			return out
+		}
+		ha, ta := applied(head, body, true), applied(tail, loop.Body, false)
+		alike := ""
+		for k := range ta {
+			if ha[k] && k != "Type" {
+				alike = k
+			}
+		}
+		if alike == "" {
+			return
+		}
+		// guards: if statements whose body ends in a value-producing return and whose condition applies a
+		// state predicate to a family variable; rendered with the family variables replaced by $
+		render := func(fam map[types.Object]bool, cond ast.Expr, isHead bool) (string, bool) {
+			has := false
+			ast.Inspect(cond, func(n ast.Node) bool {
+				if call, ok := n.(*ast.CallExpr); ok {
+					if se, ok := call.Fun.(*ast.SelectorExpr); ok && inFam(fam, se.X, isHead) && statePreds[se.Sel.Name] {
+						has = true
+					}
+				}
+				return true
+			})
+			if !has {
+				return "", false
+			}
+			cc := &canonCtx{info: info, subst: map[types.Object]string{}, locals: map[types.Object]string{}}
+			for o := range fam {
+				cc.subst[o] = "$"
+			}
+			out := cc.expr(cond)
+			if isHead {
+				out = strings.ReplaceAll(out, exprStr(&ast.IndexExpr{X: ast.NewIdent(argsObj.Name()), Index: &ast.BasicLit{Kind: token.INT, Value: "0"}}), "$")
+			}
+			return out, true
+		}
+		guards := func(fam map[types.Object]bool, list []ast.Stmt, before token.Pos, isHead bool) map[string]token.Pos {
+			out := map[string]token.Pos{}
+			for _, st := range list {
+				is, ok := st.(*ast.IfStmt)
+				if !ok || (before.IsValid() && is.Pos() >= before) || len(is.Body.List) == 0 {
+					continue
+				}
+				ret, ok := is.Body.List[len(is.Body.List)-1].(*ast.ReturnStmt)
+				if !ok || len(ret.Results) == 0 || !isNilIdent(info, ret.Results[len(ret.Results)-1]) {
+					continue
+				}
+				if s, ok := render(fam, is.Cond, isHead); ok {
+					out[s] = is.Pos()
+				}
+			}
+			return out
+		}
+		hg := guards(head, body.List, loop.Pos(), true)
+		tg := guards(tail, loop.Body.List, token.NoPos, false)
+		key := fmt.Sprintf("%s.%s/args[0]~args[1:]", pkg, declName(fd))
+		var missing []string
+		var pos token.Pos
+		for g, p := range tg {
+			if _, ok := hg[g]; !ok {
+				missing = append(missing, strings.ReplaceAll(g, "$", "arg"))
+				pos = p
+			}
+		}
+		if len(missing) > 0 {
+			sort.Strings(missing)
+			rr.Violation(key, pos, fmt.Sprintf("the loop over args[1:] guards each operand with {%s} before using it (%s), but args[0], which is used the same way, is not guarded like that before the loop: the first operand escapes the check", strings.Join(missing, "; "), alike))
+		} else {
+			rr.OK(key, loop.Pos(), fmt.Sprintf("%d guard(s) of the loop are also applied to the first operand (both reach %s)", len(tg), alike))
+		}
+	})
+}
+
+// ---------------------------------------------------------------------------
+// C11.prediction-ignores-nullness, C12.null-skip-needs-known
+
+func init() {
+	register(&Rule{
+		ID: "C11.prediction-ignores-nullness", Prop: "C11", Floor: 3, Controls: 0,
+		Doc: "in a Type callback of a standard function, the list of argument types handed to convert.Unify / UnifyUnsafe is filled without regard to whether an argument is null: no 'if arg.IsNull() { continue }' guards the accumulation (a typed null still fixes the result type in the type-only prediction, so dropping it makes the prediction from values contradict the prediction from types)",
+		Run: runPredictionIgnoresNullness,
+	})
+	register(&Rule{
+		ID: "C12.null-skip-needs-known", Prop: "C12", Also: []string{"C11"}, Floor: 1, Controls: 0,
+		Doc: "in an Impl callback, an argument of a parameter declared both AllowNull and AllowUnknown is skipped as null ('if arg.IsNull() { continue }') only where it is established to be known: IsNull answers false for an unknown value that may yet turn out to be null, so treating it as 'definitely not null' lets its value, type refinements included, decide the result",
+		Run: runNullSkipNeedsKnown,
+	})
+}
+
+func runPredictionIgnoresNullness(rr *RuleRun) {
+	c := rr.Ctx
+	pkg := "cty/function/stdlib"
+	info := c.Info(pkg)
+	done := map[*ast.BlockStmt]bool{}
+	for _, s := range findSpecs(c, pkg) {
+		if s.TypeCB == nil {
+			continue
+		}
+		body, _, where := resolveCallback(c, pkg, s.TypeCB)
+		if body == nil || done[body] {
+			continue
+		}
+		done[body] = true
+		// slices of types handed to a unification
+		unified := map[types.Object]bool{}
+		inspectNoLit(body, func(n ast.Node) bool {
+			call, ok := n.(*ast.CallExpr)
+			if !ok || !isCall(info, call, "cty/convert.Unify", "cty/convert.UnifyUnsafe") || len(call.Args) != 1 {
+				return true
+			}
+			if o := objOf(info, call.Args[0]); o != nil {
+				unified[o] = true
+			}
+			return true
+		})
+		for tys := range unified {
+			name := s.Name
+			if where != "literal" {
+				name = where
+			}
+			key := fmt.Sprintf("%s.%s.Type/%s→unify", pkg, name, tys.Name())
+			bad := false
+			// loops whose body stores into tys
+			inspectNoLit(body, func(n ast.Node) bool {
+				var lbody *ast.BlockStmt
+				switch x := n.(type) {
+				case *ast.RangeStmt:
+					lbody = x.Body
+				case *ast.ForStmt:
+					lbody = x.Body
+				default:
+					return true
+				}
+				stores := false
+				inspectNoLit(lbody, func(m ast.Node) bool {
+					if as, ok := m.(*ast.AssignStmt); ok {
+						for _, l := range as.Lhs {
+							if rootObj(info, l) == tys {
+								stores = true
+							}
+							if ix, ok := l.(*ast.IndexExpr); ok && objOf(info, ix.X) == tys {
+								stores = true
+							}
+						}
+					}
+					return true
+				})
+				if !stores {
+					return true
+				}
+				for _, st := range lbody.List {
+					is, ok := st.(*ast.IfStmt)
+					if !ok {
+						continue
+					}
+					nullTest := false
+					ast.Inspect(is.Cond, func(m ast.Node) bool {
+						if call, ok := m.(*ast.CallExpr); ok && isCall(info, call, "cty.Value.IsNull") {
+							nullTest = true
+						}
+						return true
+					})
+					skips := false
+					for _, bs := range is.Body.List {
+						if br, ok := bs.(*ast.BranchStmt); ok && br.Tok == token.CONTINUE {
+							skips = true
+						}
+					}
+					if nullTest && skips && !bad {
+						bad = true
+						rr.Violation(key, is.Pos(), fmt.Sprintf("the argument types collected in %s for unification leave out arguments that are null ('%s' then continue): the type-only prediction counts every argument, so a typed null that widens the unified type makes the type predicted from values differ from (and not conform to) the type predicted from types", tys.Name(), trunc(exprStr(is.Cond), 40)))
+					}
+				}
+				return true
+			})
+			if !bad {
+				rr.OK(key, body.Pos(), "no argument is left out of the unification because it is null")
+			}
+		}
+	}
+}
+
+func runNullSkipNeedsKnown(rr *RuleRun) {
+	c := rr.Ctx
+	pkg := "cty/function/stdlib"
+	info := c.Info(pkg)
+	n := 0
+	for _, s := range findSpecs(c, pkg) {
+		if s.ImplCB == nil {
+			continue
+		}
+		body, ftype, _ := resolveCallback(c, pkg, s.ImplCB)
+		if body == nil || ftype == nil || ftype.Params == nil || len(ftype.Params.List) == 0 || len(ftype.Params.List[0].Names) == 0 {
+			continue
+		}
+		argsObj := info.Defs[ftype.Params.List[0].Names[0]]
+		// every covered parameter allows both null and unknown?
+		all := s.covered(0)
+		if len(all) == 0 {
+			continue
+		}
+		both := true
+		for _, p := range all {
+			if !(p.AllowNull && p.AllowUnknown) {
+				both = false
+			}
+		}
+		if !both {
+			continue
+		}
+		cf := c.CondFacts(body, info, nil)
+		inspectNoLit(body, func(nd ast.Node) bool {
+			rs, ok := nd.(*ast.RangeStmt)
+			if !ok || objOf(info, rs.X) != argsObj || rs.Value == nil {
+				return true
+			}
+			v := objOf(info, rs.Value)
+			for _, st := range rs.Body.List {
+				is, ok := st.(*ast.IfStmt)
+				if !ok || !methodCond(info, is.Cond, v, "IsNull") {
+					continue
+				}
+				skips := false
+				for _, bs := range is.Body.List {
+					if br, ok := bs.(*ast.BranchStmt); ok && br.Tok == token.CONTINUE {
+						skips = true
+					}
+				}
+				if !skips {
+					continue
+				}
+				n++
+				key := fmt.Sprintf("%s.%s.Impl/%s.IsNull()→continue", pkg, s.Name, v.Name())
+				if cf.HoldsAt(is.Cond, func(cond ast.Expr, truth bool) bool { return truth && methodCond(info, cond, v, "IsKnown", "IsWhollyKnown") }) {
+					rr.OK(key, is.Pos(), "the argument is established to be known before its nullness decides anything")
+				} else {
+					rr.Violation(key, is.Pos(), fmt.Sprintf("%s may be unknown here (its parameter allows unknown and null values) and is skipped only if IsNull() — which is false for an unknown value that may still turn out to be null: the argument is then treated as definitely not null and decides the result with whatever refinements it carries", v.Name()))
+				}
+			}
+			return true
+		})
+	}
+	if n == 0 {
+		rr.Info(pkg+"/null-skip", token.NoPos, "no Impl callback skips null arguments of a parameter that allows unknown values")
 	}
 }
